@@ -144,7 +144,7 @@ NodeFieldsBase == {"thread_pool_write_queue", "breakers_parent_tripped", "jvm_bu
                    "transport_rx_count", "process_cpu_percent", "indexing_pressure_memory_total_all_in_bytes"}
 NodeFieldsIndices == {"indices_docs_count", "indices_store_size_in_bytes", "indices_merges_total_time_in_millis"}
 NodeFields(dv) == NodeFieldsBase \cup (IF dv.incl THEN NodeFieldsIndices ELSE {})
-TransformTracked == <<"transform_pages_processed", "transform_search_time", "transform_throughput">>
+TransformTracked == <<"transform_pages_processed", "transform_documents_processed", "transform_throughput">>
 
 TransformDocs(d, c, els, v, pre) ==
     [i \in 1..(3 * Len(els)) |->
@@ -346,9 +346,10 @@ JoinStep(a) ==
           /\ act' = [name |-> "Join", d |-> d, c |-> c, a |-> a]
     /\ UNCHANGED <<scn, now, pi, jo, ds, rej>>
 
+(* the caller gives up after a container call has raised *)
 End ==
     /\ mpc.at = "idle"
-    /\ pi = Len(scn.prog) \/ (ccalls # <<>> /\ Last(ccalls).out = "raise")
+    /\ pi < Len(scn.prog) /\ ccalls # <<>> /\ Last(ccalls).out = "raise"
     /\ mpc' = Ended
     /\ act' = [name |-> "End", d |-> 0, c |-> 0, a |-> <<>>]
     /\ UNCHANGED <<scn, now, pi, log, ccalls, jo, ds, th, store, rd, rej>>
@@ -412,7 +413,8 @@ InitFor(s) ==
 Init == \E s \in Scenarios : InitFor(s)
 
 (* the caller has finished and the clock has reached its bound: threads nobody stops run on forever *)
-Terminated == mpc.at = "end" /\ now >= MaxTime
+CallerDone == mpc.at = "end" \/ (mpc.at = "idle" /\ pi = Len(scn.prog))
+Terminated == CallerDone /\ now >= MaxTime
 Spec == Init /\ [][Next]_vars
 SpecD == Init /\ [][Next \/ (Terminated /\ UNCHANGED vars)]_vars
 
